@@ -11,7 +11,8 @@ RULE = ("1-60 observation times over baselines of 1e-2..1e4 periods (a third of 
         "the harness (largest arc on the phase circle incl. the wrap-around arc, occupied-bin fraction, baseline/P, "
         "first arg-max of ln_prior+ln_likelihood) and metamorphic relations (invariance under permutation of the "
         "observations; max_phase_gap invariant under time reversal of the observing pattern). Tolerance 1e-9 on "
-        "phases. Non-trivial: >=3 observations (diagnostics) / >=2 rows (MAP); distinct by fingerprint.")
+        "phases. Non-trivial: >=3 observations (diagnostics) / >=2 rows (MAP); distinct by fingerprint."
+        ' Also: clean=False and presorted input, reference epoch before / inside / after the baseline, MAP tables with a stored ln_posterior column, MAP_sample must not modify its input.')
 SHARDS = {"quick": 2, "thorough": 16}
 BUDGET = {"quick": 60, "thorough": 600}
 
